@@ -144,6 +144,7 @@ func runSelfTest(deps *Deps, base *Prog, p *Property, kf *KnownFile, dir string,
 			if err == nil {
 				o.Rules = []string{vp.extraTypeErrs()[0].Msg}
 			}
+			fmt.Printf("  selftest %-8s %-60s does not type-check %v %v\n", v.Kind, v.Name, err, o.Rules)
 			st.Failed++
 			st.Outcomes = append(st.Outcomes, o)
 			continue
